@@ -153,16 +153,18 @@ def HCfg.run (g : HCfg n α) (s : St n α) : St n α :=
 
 /-- `for _ in range(self.max_attempts)` of `HamiltonianDisplacementMove.attempt_displacement`.
     `zs` = successive results of `rng.standard_normal`, `checks` = successive `check_move` verdicts
-    (default verdict `True`), `old` = `(old_positions, old_momenta)` taken before the loop. -/
-def attemptLoop (g : HCfg n α) (sample : Bool) (old : St n α) :
+    (default verdict `True`), `old` = `(old_positions, old_momenta)` taken before the loop,
+    `reference` = `context.last_kinetic_energy` and `start` = `atoms.get_kinetic_energy()` read before the loop. -/
+def attemptLoop (g : HCfg n α) (sample : Bool) (old : St n α) (reference start : α) :
     Nat → List (Arr n α) → List Bool → HCtx n α → Bool × HCtx n α
   | 0, _, _, c => (false, c)
   | k + 1, zs, checks, c =>
-    -- if sample_momenta: self.distribution(context); context.last_kinetic_energy = atoms.get_kinetic_energy()
+    -- if sample_momenta: self.distribution(context); drawn = atoms.get_kinetic_energy()
+    --                    context.last_kinetic_energy = (reference - start) + drawn
     let c1 : HCtx n α :=
       if sample then
         let p := Tab.get (g.drawT c.q (zs.headD Arr.zero))
-        { c with p := p, lastKE := ekin g.m p }
+        { c with p := p, lastKE := (reference - start) + ekin g.m p }
       else c
     let zs' := if sample then zs.tail else zs
     -- self.operation.integrate(context)
@@ -171,14 +173,119 @@ def attemptLoop (g : HCfg n α) (sample : Bool) (old : St n α) :
     -- if self.check_move(context): return True
     if checks.headD true then (true, c2)
     else
-      -- atoms.positions = old_positions; atoms.set_array("momenta", old_momenta); Context.revert_state(context)
-      attemptLoop g sample old k zs' checks.tail
-        { c2 with q := old.q, p := old.p, calcAt := c2.lastResults }
+      -- atoms.positions = old_positions; atoms.set_array("momenta", old_momenta)
+      -- context.last_kinetic_energy = reference; Context.revert_state(context)
+      attemptLoop g sample old reference start k zs' checks.tail
+        { c2 with q := old.q, p := old.p, lastKE := reference, calcAt := c2.lastResults }
 
-/-- `HamiltonianDisplacementMove.attempt_displacement(context, sample_momenta)` -/
+/-- `HamiltonianDisplacementMove.attempt_displacement(context, sample_momenta)`:
+    `reference = context.last_kinetic_energy; start = atoms.get_kinetic_energy()` before the loop -/
 def attemptDisplacement (g : HCfg n α) (sample : Bool) (maxAttempts : Nat)
     (zs : List (Arr n α)) (checks : List Bool) (c : HCtx n α) : Bool × HCtx n α :=
-  attemptLoop g sample ⟨c.q, c.p⟩ maxAttempts zs checks c
+  attemptLoop g sample ⟨c.q, c.p⟩ c.lastKE (ekin g.m c.p) maxAttempts zs checks c
+
+/-! ### the code as it was pinned (before the kinetic reference was carried)
+
+`context.last_kinetic_energy = atoms.get_kinetic_energy()` after every draw, nothing put back after a veto.
+Kept for the witness theorems `pinned_second_member_overwrites_reference` and `pinned_vetoed_member_leaks`. -/
+
+def attemptLoopPinned (g : HCfg n α) (sample : Bool) (old : St n α) :
+    Nat → List (Arr n α) → List Bool → HCtx n α → Bool × HCtx n α
+  | 0, _, _, c => (false, c)
+  | k + 1, zs, checks, c =>
+    let c1 : HCtx n α :=
+      if sample then
+        let p := Tab.get (g.drawT c.q (zs.headD Arr.zero))
+        { c with p := p, lastKE := ekin g.m p }
+      else c
+    let zs' := if sample then zs.tail else zs
+    let s := g.run ⟨c1.q, c1.p⟩
+    let c2 : HCtx n α := { c1 with q := s.q, p := s.p, calcAt := s.q }
+    if checks.headD true then (true, c2)
+    else
+      attemptLoopPinned g sample old k zs' checks.tail
+        { c2 with q := old.q, p := old.p, calcAt := c2.lastResults }
+
+def attemptDisplacementPinned (g : HCfg n α) (sample : Bool) (maxAttempts : Nat)
+    (zs : List (Arr n α)) (checks : List Bool) (c : HCtx n α) : Bool × HCtx n α :=
+  attemptLoopPinned g sample ⟨c.q, c.p⟩ maxAttempts zs checks c
+
+/-! ## where the kinetic reference comes from: `HamiltonianContext` and `HamiltonianCanonical` -/
+
+/-- `HamiltonianDisplacementContext(atoms, rng)`: `last_kinetic_energy = atoms.get_kinetic_energy()` -/
+def HCtx.fresh (m : Col n α) (q p : Arr n α) : HCtx n α := ⟨q, p, ekin m p, q, q⟩
+
+/-- `HamiltonianContext.save_state` (accepted trial): `last_momenta = p`, `last_kinetic_energy = KE(p)`,
+    `last_results` = the calculator's results -/
+def HCtx.saveState (m : Col n α) (c : HCtx n α) : HCtx n α :=
+  { c with lastKE := ekin m c.p, lastResults := c.calcAt }
+
+/-- `HamiltonianDisplacementContext.revert_state` (rejected trial): momenta and positions put back to the
+    remembered ones (`lastQ`, `lastP`), `last_kinetic_energy = atoms.get_kinetic_energy()` of those momenta,
+    the calculator's results put back -/
+def HCtx.revertState (m : Col n α) (lastQ lastP : Arr n α) (c : HCtx n α) : HCtx n α :=
+  { c with q := lastQ, p := lastP, lastKE := ekin m lastP, calcAt := c.lastResults }
+
+/-- `HamiltonianCanonical.validate_simulation` (start of every run): `last_momenta = p`,
+    `last_kinetic_energy = KE(p)` for whatever momenta the atoms carry now -/
+def HCtx.validate (m : Col n α) (c : HCtx n α) : HCtx n α := { c with lastKE := ekin m c.p }
+
+/-! ## Hamiltonian moves inside a plain `CompositeMove` -/
+
+/-- one member of a `CompositeMove` as one call sees it.
+    `ham`: a `HamiltonianDisplacementMove` with its integrator, `max_attempts`, the normal draws and the
+    `check_move` verdicts of this call.  `disp`: a member that changes positions only (`DisplacementMove`):
+    `some q'` = it succeeded and left positions `q'`; `none` = it failed and restored what it found. -/
+inductive Member (n : Nat) (α : Type) where
+  | ham (g : HCfg n α) (maxAttempts : Nat) (zs : List (Arr n α)) (checks : List Bool)
+  | disp (q' : Option (Arr n α))
+
+/-- `move(context)` of one member -/
+def memberCall : Member n α → HCtx n α → Bool × HCtx n α
+  | .ham g k zs checks, c => attemptDisplacement g true k zs checks c
+  | .disp (some q'), c => (true, { c with q := q', calcAt := q' })
+  | .disp none, c => (false, c)
+
+/-- `CompositeMove.__call__`: `any([move(context) for move in self.moves])` — every member is called, in
+    order, on the context the previous one left -/
+def compositeCall : List (Member n α) → HCtx n α → Bool × HCtx n α
+  | [], c => (false, c)
+  | mem :: rest, c =>
+    let r := memberCall mem c
+    let r' := compositeCall rest r.2
+    (r.1 || r'.1, r'.2)
+
+/-- the same with the pinned `attempt_displacement` -/
+def memberCallPinned : Member n α → HCtx n α → Bool × HCtx n α
+  | .ham g k zs checks, c => attemptDisplacementPinned g true k zs checks c
+  | .disp (some q'), c => (true, { c with q := q', calcAt := q' })
+  | .disp none, c => (false, c)
+
+def compositeCallPinned : List (Member n α) → HCtx n α → Bool × HCtx n α
+  | [], c => (false, c)
+  | mem :: rest, c =>
+    let r := memberCallPinned mem c
+    let r' := compositeCallPinned rest r.2
+    (r.1 || r'.1, r'.2)
+
+/-- one trial of `MonteCarlo.step` under `HamiltonianCanonical` with a composite in the move table: the composite
+    is called; if it reports success the criteria's verdict decides between `save_state` and `revert_state`
+    (`lastQ`, `lastP` = the remembered positions and momenta); if it reports failure neither is called -/
+def hamTrial (m : Col n α) (ms : List (Member n α)) (accept : Bool) (lastQ lastP : Arr n α)
+    (c : HCtx n α) : HCtx n α :=
+  let r := compositeCall ms c
+  if r.1 then (if accept then r.2.saveState m else r.2.revertState m lastQ lastP) else r.2
+
+/-- index of the first attempt among `k` whose `check_move` verdict is not a veto -/
+def firstPass : List Bool → Nat → Option Nat
+  | _, 0 => none
+  | checks, k + 1 => if checks.headD true then some 0 else (firstPass checks.tail k).map (· + 1)
+
+/-- the energy difference `HamiltonianCanonicalCriteria.evaluate` exponentiates:
+    `atoms.get_total_energy() - context.last_potential_energy - context.last_kinetic_energy`
+    (`pe` = the calculator's potential energy, `lastPE` = `context.last_potential_energy`) -/
+def criteriaEnergyDifference (pe : Arr n α → α) (m : Col n α) (lastPE : α) (c : HCtx n α) : α :=
+  (pe c.q + ekin m c.p) - lastPE - c.lastKE
 
 /-! ## analytic force fields used by the correspondence runs (and by the harmonic theorems) -/
 
